@@ -184,6 +184,29 @@ CtlCases ==
             <<Set("r", IfSet("y", WInt, Arg(IntV(4), m[1]), Block(<<Mark(1), Bin("+", V("y"), Arg(IntV(1), m[2]))>>), Block(<<Mark(2), I(0)>>))), V("r")>>, {})
           : m \in Masks(2)}
 
+\* (kept out of the sampled part: every twin is run in the quick tier too)
+SiteTwiceCases ==
+  \* a foldable SITE evaluated more than once (a function called twice, a loop body): what the folder computes early must
+  \* not be shared between the evaluations (an iterator over a constant array has a position)
+  {ProgCase("iter-twice-sum" \o MaskStr(m),
+            <<FnDecl("run", <<>>, WInt, <<Ret(RedE("$+", "int", IterE(ArrE(<<Arg(IntV(1), m[1]), Arg(IntV(2), m[2]), I(3)>>))))>>),
+              TupE(<<CallE(V("run"), <<>>), CallE(V("run"), <<>>)>>)>>, {}) : m \in Masks(2)}
+  \cup {ProgCase("iter-twice-collect-via-name" \o MaskStr(m),
+            <<Set("a", ArrE(<<Arg(IntV(4), m[1]), Arg(IntV(5), m[2])>>)), FnDecl("f", <<>>, WArr(WInt), <<Ret(CollectE(IterE(V("a"))))>>),
+              TupE(<<CallE(V("f"), <<>>), CallE(V("f"), <<>>)>>)>>, {}) : m \in Masks(2)}
+  \cup {ProgCase("iter-in-loop" \o MaskStr(m),
+            <<Set("acc", MutE(WInt, I(0))), Set("k", MutE(WInt, I(0))),
+              While(Bin("<", Deref(V("k")), I(3)),
+                    Block(<<For("e", IterE(ArrE(<<Arg(IntV(1), m[1]), Arg(IntV(2), m[2])>>)), Block(<<Mark(1), Asg("+=", V("acc"), V("e"))>>)),
+                            Asg("+=", V("k"), I(1))>>)), Deref(V("acc"))>>, {}) : m \in Masks(2)}
+  \cup {ProgCase("iter-first-pull-twice" \o MaskStr(m),
+            <<FnDecl("first", <<>>, WInt, <<Set("it", IterE(ArrE(<<Arg(IntV(7), m[1]), Arg(IntV(8), m[2])>>))), Ret(TupAt(CallE(V("it"), <<>>), 1))>>),
+              TupE(<<CallE(V("first"), <<>>), CallE(V("first"), <<>>)>>)>>, {}) : m \in Masks(2)}
+  \cup {ProgCase("iter-map-twice" \o MaskStr(m),
+            <<FnDecl("run", <<>>, WArr(WInt),
+                     <<Ret(CollectE(MapE(IterE(ArrE(<<Arg(IntV(1), m[1]), Arg(IntV(2), m[2])>>)), FnE(<<P("v", WInt)>>, WInt, <<Ret(Bin("*", V("v"), I(2)))>>))))>>),
+              TupE(<<CallE(V("run"), <<>>), CallE(V("run"), <<>>)>>)>>, {}) : m \in Masks(2)}
+
 \* ---------------------------------------------------------------- a constant next to a bare NAME
 \* Identities the folder may be tempted by (0 * x, x * 0, 0 % x, x % 1, 0 / x, x ** 0, 0 << x, x & 0, x - x, x / x, x == x ...)
 \* hold only for some values of x: the operand is a parameter (a plain read of a name bound to a non-constant value, with
@@ -216,7 +239,7 @@ NameCases ==
   \cup {ProgCase("name-bool-" \o op \o ToString(a) \o ToString(b),
             <<FnDecl("g", <<P("x", WBool)>>, WBool, <<Ret(IF op = "and" THEN AndE(V("x"), B(b)) ELSE OrE(V("x"), B(b)))>>), CallE(V("g"), <<Hide(WBool, B(a))>>)>>, {})
      : op \in {"and", "or"}, a \in BOOLEAN, b \in BOOLEAN}
-NameSeq == SetToSeq(NameCases)
+NameSeq == SetToSeq(NameCases) \o SetToSeq(SiteTwiceCases)
 
 \* ---------------------------------------------------------------- contexts for expression templates
 Contexts == {"top", "fn", "fn-uncalled", "after-effect", "via-name"}
